@@ -196,6 +196,7 @@ PROBES = {
     "msd-hash-after-linebreak-in-chart": (_probe(_ssc([("VERSION", "0.83")], [("CREDIT", "a\r\n;#b"), ("NOTES", "0000")])), "chart value 'a\\r\\n;#b': re-parse splits the parameter (msdparser escaping gap)"),
     "multi-value-key-only-none": (_probe(_ssc([("VERSION", "0.83")], [("DISPLAYBPM", None), ("NOTES", "0000")])), "a key-only (None) ATTACKS/DISPLAYBPM property (simfile or chart level) is written '#DISPLAYBPM;' and re-parses as '' instead of None"),
     "msd-triple-slash": (_probe(_ssc([("VERSION", "0.83")], [("NOTES", "00///00")])), "note data '00///00': re-parse loses the tail as a comment (msdparser escaping gap)"),
+    "msd-triple-slash-in-key": (_probe(_ssc([("VERSION", "0.83")], [("A///B", "v"), ("NOTES", "0000")])), "chart key 'A///B': re-parse loses the rest of the line as a comment (msdparser escaping gap; the property lists '///' for values only)"),
     "msd-hash-in-key": (_probe(_ssc([("A\n#B", "v")])), "key 'A\\n#B': re-parse splits the key (msdparser escaping gap)"),
     "msd-hash-after-escape-only-key": (_probe(_ssc([("VERSION", "0.83"), ("", "#x")])), "empty key with value '#x': the '#' is reached from the previous line's break (msdparser escaping gap)"),
 }
